@@ -148,8 +148,13 @@ def run(tier):
                 msgs.append((m, rid, oids))
     obs = rs.run([m for m, _, _ in msgs])
     recs = []
+    if any(o.get("r") == "unavailable" for o in obs):
+        chk.assumptions.append("the Rust replay binary was built without its message-construction operation for this tree (a message struct changed shape): "
+                               "message round trips at the Rust level were skipped; the session-level checks (C03, C17) see the same encoders")
     for (m, rid, oids), o in zip(msgs, obs):
         names = [list(rc.oid_from_text(t)) for t in oids]
+        if o.get("r") == "unavailable":
+            continue
         if o.get("r") != "ok":
             if o.get("r") == "err" and o.get("e") == "OutOfBuffer":
                 continue                                  # does not fit the buffer: outside C15's quantifier (C17)
